@@ -164,10 +164,20 @@ structure ProbeObs where
   unchanged : Bool                       -- on Err: exactly the sentinel entries are still there
 deriving Repr, DecidableEq
 
+/-- a child killed INSIDE `write_all` (hook `arm_split`, after `k` bytes): the truncated `state.json` it really left,
+compared with the same truncation REBUILT by the harness the way the crash analysis `K` rebuilds it (the first `k` bytes of
+the text the child was writing, put into a scratch copy of the directory with `fs::write`) -/
+structure ReconObs where
+  prefixExact : Bool                     -- the file the dead child left is byte for byte those first `k` bytes
+  restored : Option (List (Nat × Nat))   -- a new store restoring the interrupted id from the REBUILT directory
+  unchanged : Bool
+deriving Repr, DecidableEq
+
 structure KillObs where
   dead : Bool                            -- the child was killed by the armed crash point (false: the call returned, it exited)
   files : List (String × FileObs)        -- the directory the child left
   probes : List ProbeObs
+  recon : Option ReconObs := none        -- only when the child died at the point inside the write
 deriving Repr, DecidableEq
 
 /-- what the earlier life leaves to the reopened store -/
@@ -215,6 +225,13 @@ def killOk (maxCk : Nat) (r : Ref) (ck : Bool) (k : KillObs) : Except String Old
       .error "interrupted_partial_state"
     else if ck && !k.dead && maxCk ≥ 1 && snapOk full && extra.any (fun p => p.restored.isNone) then
       .error "completed_checkpoint_not_restorable"
+    -- killed inside the write: what the real kill left and what the reconstruction of that truncation point yields must
+    -- be the same thing (the file: byte for byte; the restore: same outcome) - else the reconstructed family `K` (every
+    -- byte offset) would not be speaking about states a crash really produces
+    else if (match k.recon with | some rc => !rc.prefixExact | none => false) then .error "partial_write_not_a_prefix"
+    else if (match k.recon with
+             | some rc => extra.any (fun p => p.restored != rc.restored || (p.restored.isNone && p.unchanged != rc.unchanged))
+             | none => false) then .error "reconstruction_disagrees_with_real_kill"
     else .ok { files := k.files,
                survivors := k.probes.filterMap (fun p => p.restored.map fun v => (p.id, v)),
                ids := k.probes.map (·.id) }
@@ -224,7 +241,13 @@ def stepOk2 (maxCk : Nat) (old : Old) (r : Ref) (op : OOp) (o : Obs) : Except St
   let aliased := match op, o.res with
     | .checkpoint, .ckpt i => old.ids.contains i
     | _, _ => false
-  if aliased then .error "ids_distinct_across_restart"
+  -- … and whether that id still had its checkpoint file at the restart (then the new checkpoint overwrites it: F-C20b,
+  -- repaired by fix-C20b) or only the memory of the earlier life knows it (retired by retention / died before
+  -- `File::create`: the directory holds nothing to consult - the residual of F-C20b)
+  let onDisk := match o.res with
+    | .ckpt i => (match lookupS old.files i with | some .noFile => false | none => false | some _ => true)
+    | _ => false
+  if aliased then .error (if onDisk then "ids_distinct_across_restart" else "vanished_id_reused_across_restart")
   else if o.files.filter (fun f => old.files.any (·.1 == f.1)) != old.files then
     .error "earlier_life_checkpoint_changed"
   else
